@@ -46,6 +46,8 @@ FILLERS = {
     "8": "8", "80": "80", "25": "25", "F$": "F$", "A": "A", "Z": "Z", "X": "X", "Qq": "Qq", "Pq%": "Pq%", "\"T.TXT\"": '"T.TXT"', "\"##\"": '"##"',
     "\"abc\"+Chr$(200)": '"abc" + Chr$(200) + "z"', "Chr$(200)+\"abcd\"": 'Chr$(200) + "abcd"', "String$(5,200)": "String$(5, 200)",
     "\"aé\"": '"a\u00e9bcd"',
+    "Pa() AS MyType": "Pa() AS MyType", "Pr AS MyType": "Pr AS MyType", "Pi() AS INTEGER": "Pi() AS INTEGER", "Ps$()": "Ps$()",
+    "Pn AS LONG": "Pn AS LONG", "Pu AS Undef": "Pu AS Undef", "Pq%()": "Pq%()",
     "QQ": "QQ", "A.B$": "A.B$", "Rec.X%": "Rec.X%", "Undef.X$": "Undef.X$", "Rec.S$": "Rec.S$", "&O8": "&O8", "&o17": "&o17", "2#": "2#",
     "": "", " ": " ", ":": ":", "'": "'", ",": ",", ";": ";", "=": "=", "1 TO 2": "1 TO 2", "-": "-", "- -1": "- -1", "(N%": "(N%", "N%)": "N%)",
 }
